@@ -229,7 +229,7 @@ def tracked_lists(ctx):
                 lines.append(f"xs.remove({v})")
             elif k == "rmx":
                 v = rng.choice([x for x in (6, 7, 11, 0) if x not in cur] or [13])
-                lines += ["try:", f"    xs.remove({v})", "except ValueError:", "    mon.write(99)"]
+                lines += ["try:", f"    xs.remove({v})", "except:", "    mon.write(99)"]
             elif k == "last" and cur:
                 lines.append("mon.write(xs[len(xs) - 1])")
             else:
